@@ -278,6 +278,14 @@ class RefEval:
             raise Invalid('conversion target must hold every value of the source type exactly')
         return R(a.V, a.E, a.X, a.kn)
 
+    def r_conv_l(self, node, path):
+        x = self.lst(self.ev(node[1], path + (1,)))
+        l2, f2 = node[2], node[3]
+        if not (isinstance(l2, int) and isinstance(f2, int) and f2 >= self.f and l2 - f2 >= self.l - self.f
+                and l2 >= 2 * f2 and l2 <= 160):
+            raise Invalid('conversion target must hold every value of the source type exactly')
+        return [R(a.V, a.E, a.X, a.kn) for a in x]
+
     def r_cmp(self, node, path):
         rel = node[1]
         if rel not in CMP:
@@ -873,6 +881,11 @@ class Interp:
         a = self.ev(node[1], path + (1,))
         T2 = self.mpc.SecFxp(node[2], node[3])
         return self.mpc.convert(self.mpc.convert(a, T2), self.T)
+
+    def e_conv_l(self, node, path):
+        x = self.ev(node[1], path + (1,))
+        T2 = self.mpc.SecFxp(node[2], node[3])
+        return self.mpc.convert(self.mpc.convert(x, T2), self.T)   # list form of convert, there and back
 
     def e_cmp(self, node, path):
         a = self.operand(node, path, 2)
